@@ -48,6 +48,20 @@ type SessionStore struct {
 	data map[string]map[string]string
 	n    int
 	w    *World
+	salt string
+	Hook func(op string)
+}
+
+// NewStandaloneSessionStore returns a session store usable concurrently without a World.
+func NewStandaloneSessionStore(salt string) *SessionStore {
+	return &SessionStore{data: map[string]map[string]string{}, salt: salt}
+}
+
+func (s *SessionStore) sidSalt() string {
+	if s.w != nil {
+		return s.w.sidSalt
+	}
+	return s.salt
 }
 
 const SidCookie = "sid"
@@ -65,6 +79,9 @@ func newSessionStore(w *World) *SessionStore {
 
 // ReadState returns an immutable snapshot of the session named by the sid cookie.
 func (s *SessionStore) ReadState(r *http.Request) (authboss.ClientState, error) {
+	if s.Hook != nil {
+		s.Hook("SessionRead")
+	}
 	st := sessState{vals: map[string]string{}}
 	if c, err := r.Cookie(SidCookie); err == nil {
 		s.mu.Lock()
@@ -81,14 +98,19 @@ func (s *SessionStore) ReadState(r *http.Request) (authboss.ClientState, error) 
 
 // WriteState applies the events in order; DelAll keeps exactly the comma-separated whitelist.
 func (s *SessionStore) WriteState(w http.ResponseWriter, state authboss.ClientState, evs []authboss.ClientStateEvent) error {
-	s.w.noteSessionWrite(convEvents(evs))
+	if s.Hook != nil {
+		s.Hook("SessionWrite")
+	}
+	if s.w != nil {
+		s.w.noteSessionWrite(convEvents(evs))
+	}
 	st, _ := state.(sessState)
 	s.mu.Lock()
 	defer s.mu.Unlock()
 	m, ok := s.data[st.sid]
 	if !ok || st.sid == "" {
 		s.n++
-		st.sid = fmt.Sprintf("S%d-%s", s.n, s.w.sidSalt)
+		st.sid = fmt.Sprintf("S%d-%s", s.n, s.sidSalt())
 		m = map[string]string{}
 		s.data[st.sid] = m
 		http.SetCookie(w, &http.Cookie{Name: SidCookie, Value: st.sid, Path: "/", HttpOnly: true})
@@ -116,6 +138,17 @@ func (s *SessionStore) WriteState(w http.ResponseWriter, state authboss.ClientSt
 	return nil
 }
 
+// BySid returns a copy of the session stored under sid.
+func (s *SessionStore) BySid(sid string) map[string]string {
+	out := map[string]string{}
+	s.mu.Lock()
+	defer s.mu.Unlock()
+	for k, v := range s.data[sid] {
+		out[k] = v
+	}
+	return out
+}
+
 // Of returns a copy of the server-side session a browser's sid points to (empty if none).
 func (s *SessionStore) Of(b *Browser) map[string]string {
 	out := map[string]string{}
@@ -137,7 +170,7 @@ func (s *SessionStore) Set(b *Browser, k, v string) {
 	m, ok := s.data[sid]
 	if !ok || sid == "" {
 		s.n++
-		sid = fmt.Sprintf("S%d-%s", s.n, s.w.sidSalt)
+		sid = fmt.Sprintf("S%d-%s", s.n, s.sidSalt())
 		m = map[string]string{}
 		s.data[sid] = m
 		b.Jar[SidCookie] = sid
@@ -191,7 +224,9 @@ func (c *CookieStore) ReadState(r *http.Request) (authboss.ClientState, error) {
 }
 
 func (c *CookieStore) WriteState(w http.ResponseWriter, state authboss.ClientState, evs []authboss.ClientStateEvent) error {
-	c.w.noteCookieWrite(convEvents(evs))
+	if c.w != nil {
+		c.w.noteCookieWrite(convEvents(evs))
+	}
 	for _, e := range evs {
 		switch e.Kind {
 		case authboss.ClientStateEventPut:
